@@ -129,7 +129,7 @@ def _const_range_of(mir, op):
 
 
 class SubjectAnalysis:
-    def __init__(self, mir, is_subject, lo=0, hi=UMAX, body=None, eb=None):
+    def __init__(self, mir, is_subject, lo=0, hi=UMAX, body=None, eb=None, removed_edges=(), removed_blocks=()):
         """is_subject(expr) -> bool   (expr as built by vplib.expr.ExprBuilder; casts are stripped first)"""
         from .expr import ExprBuilder
         self.mir = mir
@@ -138,6 +138,8 @@ class SubjectAnalysis:
         self.lo, self.hi = lo, hi
         self.state = {}
         self.relevant_conds = []
+        self.removed_edges = set(tuple(x) for x in removed_edges)
+        self.removed_blocks = set(removed_blocks)
         self._run()
 
     def _subj_op(self, op):
@@ -252,6 +254,8 @@ class SubjectAnalysis:
                 edge_cache[b] = self.edge_sets(b) if m.blocks[b].term.kind == "switch" else None
             es = edge_cache[b]
             for s in m.succ(b):
+                if (b, s) in self.removed_edges or s in self.removed_blocks:
+                    continue
                 out = cur if es is None or s not in es else cur.intersect(es[s])
                 old = state.get(s)
                 new = out if old is None else old.union(out)
